@@ -307,6 +307,7 @@ func (a *Analysis) checkGate(gs gateSpec, res *GateResult) *GateInfo {
 		}
 		inSpec := reach.IntersectFinite(gs.spec)
 		outSpec := reach.MinusFinite(gs.spec)
+		matchesSent, desc := a.matches(errv, sent)
 		switch {
 		case isNil:
 			success = success.Union(reach)
@@ -315,45 +316,49 @@ func (a *Analysis) checkGate(gs gateSpec, res *GateResult) *GateInfo {
 			} else {
 				r.OK(gs.rule, key, rp, "", "success exit reached only with %s ∈ %v", gs.what, reach)
 			}
-		case inSpec.Empty():
-			// a size-reject exit
+		case matchesSent || inSpec.Empty():
+			// a size-reject exit (it returns the size sentinel, or only rejected sizes reach it)
 			nReject++
 			reject = reject.Union(reach)
-			ok, desc := a.matches(errv, sent)
-			if !ok {
-				r.Bad(gs.rule, key+"/error", rp, "", "rejected %s returns %s, which does not match %s", gs.what, desc, gs.sentinel)
+			if !inSpec.Empty() {
+				r.Bad(gs.rule, key, rp, "", "%s rejects accepted %s ∈ %v with %s", fk, gs.what, inSpec, desc)
 			} else {
-				r.OK(gs.rule, key+"/error", rp, "", "rejected %s returns %s", gs.what, desc)
+				r.OK(gs.rule, key, rp, "", "size-reject exit, reached only with %s outside %v", gs.what, specSet)
+			}
+			if !matchesSent {
+				r.Bad(gs.rule+"e", key+"/error", rp, "", "rejected %s returns %s, which does not match %s", gs.what, desc, gs.sentinel)
+			} else {
+				r.OK(gs.rule+"e", key+"/error", rp, "", "rejected %s returns %s", gs.what, desc)
 			}
 			if gs.strResult {
 				if s, isC := strConst(ret.Results[0]); !isC || s != "" {
-					r.Bad(gs.rule, key+"/empty", rp, "", "rejected %s does not return the empty string", gs.what)
+					r.Bad(gs.rule+"e", key+"/empty", rp, "", "rejected %s does not return the empty string", gs.what)
 				} else {
-					r.OK(gs.rule, key+"/empty", rp, "", "returns \"\"")
+					r.OK(gs.rule+"e", key+"/empty", rp, "", "returns \"\"")
 				}
 			}
-		case outSpec.Empty():
+		default:
+			// a failure exit that accepted sizes can reach (read failure, unknown token, wrong checksum)
 			late = late.Union(reach)
 			if !gs.allowLateFail {
-				r.Bad(gs.rule, key, rp, "", "%s fails with %v for accepted %s ∈ %v: it must succeed for every BIP39 size", fk, a.classifyErr(errv).Desc, gs.what, reach)
+				r.Bad(gs.rule, key, rp, "", "%s fails with %v for accepted %s ∈ %v: it must succeed for every BIP39 size", fk, desc, gs.what, inSpec)
+			} else if !outSpec.Empty() {
+				r.Bad(gs.rule, key, rp, "", "this exit past the size gate is reachable with %s ∈ %v, outside the BIP39 set %v", gs.what, outSpec, specSet)
 			} else {
 				r.OK(gs.rule, key, rp, "", "failure exit past the gate (reached only with %s ∈ %v)", gs.what, reach)
 			}
-		default:
-			reject = reject.Union(reach)
-			r.Bad(gs.rule, key, rp, "", "error exit is reachable both with accepted and with rejected %s (%v): accepted sizes %v are rejected here", gs.what, reach, inSpec)
 		}
 	}
 	// accept set
 	for _, v := range gs.spec {
 		switch {
 		case reject.Contains(v):
-			r.Bad(gs.rule, fmt.Sprintf("%s/accept/%d", fk, v), pos, "", "BIP39 size %s=%d is rejected", gs.what, v)
+			r.Bad(gs.rule+"a", fmt.Sprintf("%s/accept/%d", fk, v), pos, "", "BIP39 size %s=%d is rejected", gs.what, v)
 		case !success.Contains(v):
-			r.Bad(gs.rule, fmt.Sprintf("%s/accept/%d", fk, v), pos, "", "BIP39 size %s=%d never reaches a success exit", gs.what, v)
+			r.Bad(gs.rule+"a", fmt.Sprintf("%s/accept/%d", fk, v), pos, "", "BIP39 size %s=%d never reaches a success exit", gs.what, v)
 		default:
 			gi.Accept = append(gi.Accept, v)
-			r.OK(gs.rule, fmt.Sprintf("%s/accept/%d", fk, v), pos, "", "%s=%d reaches only success%s exits", gs.what, v, map[bool]string{true: "/late-failure", false: ""}[gs.allowLateFail])
+			r.OK(gs.rule+"a", fmt.Sprintf("%s/accept/%d", fk, v), pos, "", "%s=%d reaches only success%s exits", gs.what, v, map[bool]string{true: "/late-failure", false: ""}[gs.allowLateFail])
 		}
 	}
 	gi.Extra = success.Union(late).MinusFinite(gs.spec)
